@@ -209,6 +209,9 @@ static int URI_FUNC(RemoveBaseUriImpl)(URI_TYPE(Uri) * dest,
 							}
 							dest->absolutePath = URI_TRUE;
 
+							/* The path "/" is the absolute path without segments */
+							URI_FUNC(FixEmptyTrailSegment)(dest, memory);
+
 							if (!URI_FUNC(FixAmbiguity)(dest, memory)) {
 								return URI_ERROR_MALLOC;
 							}
